@@ -177,8 +177,16 @@ func randOps(rnd *rand.Rand, cat *Catalog, steps int, profile string, honest boo
 			}
 			ops = append(ops, Op{Op: "PushManifest", R: r, T: t, C: m, MT: mt})
 			pushedM = append(pushedM, m)
-		case k < 34:
+		case k < 32:
 			ops = append(ops, Op{Op: "MountBlob", From: repo(), R: repo(), C: pick(blobs)})
+		case k < 34:
+			// single-POST upload, sometimes with a digest that is not the content's
+			c := pick(blobs)
+			dd := c
+			if rnd.Intn(3) == 0 {
+				dd = pick(blobs)
+			}
+			ops = append(ops, Op{Op: "PostBlob", R: repo(), C: c, DD: dd})
 		case k < 38:
 			if nextU >= len(cat.Uploads)-2 {
 				// the last two names are never allocated: they stand for sessions that do not exist
